@@ -148,6 +148,12 @@ def AccGroup.parseErrors (_ : AccGroup) : Nat := 0
 /-- `GroupKey.Parts()` (`strings.Split` = `splitOn`). -/
 def groupKeyParts (k : Bytes) : List Bytes := if k = [] then [] else splitOn nul k
 
+/-- What the consumers of a group key show of it (`cmd/reduce.go` table rows, `pkg/csv/aggWriters.go`
+`WriteAccumulator`): one cell per group column, cell `i` = part `i`, surplus parts dropped, cells without
+a part empty. -/
+def groupCells (n : Nat) (k : Bytes) : List Bytes :=
+  (List.range n).map fun i => (groupKeyParts k).getD i []
+
 def AccGroup.groupCols (s : AccGroup) : List Bytes := s.groupDef.map (·.name)
 def AccGroup.dataCols (s : AccGroup) : List Bytes := s.colDef.map (·.name)
 def AccGroup.groupColCount (s : AccGroup) : Nat := s.groupDef.length
@@ -193,6 +199,12 @@ def AccGroup.groupsWith (s : AccGroup) (less : Bytes → Bytes → Bool) (order 
 
 def AccGroup.groups (s : AccGroup) (less : Bytes → Bytes → Bool) : Except String (List Bytes) :=
   s.groupsWith less (akeys s.data)
+
+/-- `csv.WriteAccumulator` (pkg/csv/aggWriters.go): the header, then one record per group in `ByName` order:
+`GroupColCount()` key cells (`groupCells`) followed by the row (`copy(row[GroupColCount():], DataNoCopy(group))`). -/
+def AccGroup.csvRows (s : AccGroup) : Except String (List (List Bytes)) :=
+  (s.groups bLt).map fun gs =>
+    (s.groupCols ++ s.dataCols) :: gs.map fun k => groupCells s.groupColCount k ++ s.dataNoCopy k
 
 /-! ### call sequences -/
 
